@@ -9,7 +9,7 @@
 From Coq Require Import List Arith ZArith Bool.
 From Verif Require Import lib.Wire c12.Model c12.ModelHP c12.SpecSwarm c12.SpecHP c12.Spec
   c12.Proofs_conn c12.Proofs_inv c12.Proofs_wait c12.Proofs_wake c12.Proofs_trace c12.Proofs_quiesce c12.Proofs_stim c12.Proofs_clauses
-  c12.Proofs_headline c12.Proofs_hp.
+  c12.Proofs_clauses2 c12.Proofs_headline c12.Proofs_hp.
 Import ListNotations.
 
 (* A stream is opened (or being opened) over a limited connection only by a
@@ -49,7 +49,9 @@ Theorem c12_wait_result_never_limited : forall s tid t s' t' c,
 Proof. exact wait_result_never_limited_l. Qed.
 Print Assumptions c12_wait_result_never_limited.
 
-(* A DialPeer with WithForceDirectDial never returns a connection whose
+(* (BasicHost.Connect is modelled as a dial call guarded by its "already connected?"
+   short-circuit, so this theorem covers it too.)
+   A DialPeer with WithForceDirectDial never returns a connection whose
    transport is a proxy (relay) transport — whether it came from
    bestAcceptableConnToPeer, from a dial shared with other requests in the
    worker, or from the last check after all its dials failed. *)
@@ -93,15 +95,20 @@ Theorem c12_no_lost_wakeup : forall da s c, reachable da s ->
 Proof. exact no_lost_wakeup_l. Qed.
 Print Assumptions c12_no_lost_wakeup.
 
-(* HEADLINE.  The swarm monitor that judges the implementation's traces (all eight
+(* HEADLINE.  The swarm monitor that judges the implementation's traces (all ten
    clauses: 1 what calls returned, 2 waiter-list length = number of blocked
    waiters, 3 nobody waits once a usable non-limited conn has been added, 4 a
    waiter whose context ended has failed, 5 Connectedness, 6 no relay address
    dialled under force-direct, 7 a call without allow-limited waits when only
    limited conns are usable, 8 a waiter keeps waiting unless a direct conn arrives
-   or its context ends) accepts the trace the model produces for EVERY list of
-   harness operations (each: one stimulus, then every call runs until it blocks),
-   from the initial state, for every value of DialAttempts. *)
+   or its context ends, 9 a NewStream call is answered ErrLimitedConn only in a step
+   in which a non-limited conn was added — never at once, never after dialling a
+   limited conn itself, 10 a force-direct BasicHost.Connect reports success only
+   with a non-proxy conn) accepts the trace the model produces for EVERY list of
+   harness operations (conns arriving/closing, NewStream / DialPeer / Conn.NewStream /
+   BasicHost.Connect calls with every option set, cancellations, timeouts, OpenStream and
+   dial results, peerstore changes; each: one stimulus, then every call runs until it
+   blocks), from the initial state, for every value of DialAttempts. *)
 Theorem c12_swarm_trace_holds : forall da ops,
   monitor_run obs_init 0 (model_trace (init_state da) ops) = [].
 Proof. exact swarm_trace_holds_l. Qed.
@@ -193,6 +200,18 @@ Proof. vm_compute. discriminate. Qed.
 (* the monitor rejects: a force-direct dial parked on a relay address *)
 Example monitor_rejects_force_relay_dial :
   monitor_case [0; 1;  7; 1; 5;  0; 0; 0; 0; 0; 0;   4; 1; 0; 1; 0;  0; 0; 0; 0; 1; 3; 0; 5; 1; 5; 1]%Z <> [].
+Proof. vm_compute. discriminate. Qed.
+
+(* the monitor rejects: a NewStream that dialled a limited conn itself and is answered
+   ErrLimitedConn at once instead of waiting (clause 9) *)
+Example monitor_rejects_immediate_limited_error :
+  monitor_case [0; 1;  7; 1; 5;  0; 0; 0; 0; 0; 0;   4; 0; 0; 0; 0;  0; 0; 0; 0; 1; 3; 0; 0; 1; 5; 0;
+                8; 5; 1; 1;  0; 0; 2; 1; 7; 1; 5; 2; 0; 0]%Z <> [].
+Proof. vm_compute. discriminate. Qed.
+
+(* the monitor rejects: Connect(force-direct, allow-limited) succeeding over a relayed conn (clause 10) *)
+Example monitor_rejects_force_connect_over_relay :
+  monitor_case [0; 1;  1; 1; 1;  0; 0; 2; 1; 7; 0; 0;   12; 1; 1; 0;  0; 0; 2; 1; 7; 1; 6; 0; 23; 0]%Z <> [].
 Proof. vm_compute. discriminate. Qed.
 
 (* the hole-punch monitor rejects a punch to a relay address *)
